@@ -75,5 +75,8 @@ func Join()       {}
 // for another client to have called SetFlag: it makes one particular
 // interleaving reproducible natively. Symbolically every interleaving at this
 // point is explored anyway.
+// ByteSlicesOf: every []byte field reachable in *ptr, sharing storage (engine intrinsic).
+func ByteSlicesOf(ptr interface{}) [][]byte { return nil }
+
 func YieldUntil(flag *int32) { Yield() }
 func SetFlag(flag *int32)    { *flag = 1 }
